@@ -357,6 +357,12 @@ func (rp *RelyingParty) VerifyRegistrationCeremony(
 	default:
 	}
 
+	// The credential id the client reports must be the one the authenticator attested; it is the attested id that is
+	// looked up and stored below.
+	if !bytesAreEqual(credential.RawID, authenticatorData.AttestedCredentialData.CredentialID) {
+		return nil, fmt.Errorf("credential id does not match the attested credential id")
+	}
+
 	// 22. Check that the credentialId is not yet registered to any other user. If registration is requested for a
 	//     credential that is already registered to a different user, the Relying Party SHOULD fail this registration
 	//     ceremony, or it MAY decide to accept the registration, e.g. while deleting the older registration.
